@@ -3,7 +3,6 @@ package filter // import "github.com/tyler-sommer/stick/twig/filter"
 
 import (
 	"encoding/json"
-	"fmt"
 	"math"
 	"net/url"
 	"sort"
@@ -364,7 +363,8 @@ func filterKeys(ctx stick.Context, val stick.Value, args ...stick.Value) stick.V
 		keys := r.MapKeys()
 		res := make([]string, 0)
 		for _, k := range keys {
-			res = append(res, fmt.Sprintf("%v", k))
+			// The key as the for loop over the same map shows it.
+			res = append(res, stick.CoerceString(k.Interface()))
 		}
 		sort.Strings(res)
 		return res
@@ -397,8 +397,12 @@ func filterLast(ctx stick.Context, val stick.Value, args ...stick.Value) stick.V
 
 // filterLength returns the length of val.
 func filterLength(ctx stick.Context, val stick.Value, args ...stick.Value) stick.Value {
-	if v, ok := val.(string); ok {
-		return utf8.RuneCountInString(v)
+	if sv, ok := val.(stick.SafeValue); ok {
+		// A string marked safe (the result of |raw or |escape) is still a string.
+		val = stick.CoerceString(sv)
+	}
+	if r := reflect.ValueOf(val); r.Kind() == reflect.String {
+		return utf8.RuneCountInString(r.String())
 	}
 	l, _ := stick.Len(val)
 	// TODO: Report error
